@@ -89,10 +89,11 @@ func scalarVal(typ, seed string) []byte {
 
 // blockOfKind builds the content of one block of the given kind for decl d.
 //
+//	e: empty block (no transactions): produces no rows
 //	a: one tx, one matching log, one trace
 //	c: two txs with two matching logs each, one trace each
 //
-// (both kinds produce rows for every shape used here, so a block that was written is visible in the table)
+// (kinds a and c produce rows for every shape used here, so a block that was written is visible in the table)
 func blockOfKind(kind byte, d *world.Decl, seed string) simeth.BlockSpec {
 	tr := func(s string) *simeth.Trace {
 		return &simeth.Trace{From: simeth.Addr(s + "/tf"), To: simeth.Addr(s + "/tt"), Value: new(big.Int).SetBytes(simeth.Word(s + "/tv")[:9]), CallType: "call"}
@@ -104,6 +105,8 @@ func blockOfKind(kind byte, d *world.Decl, seed string) simeth.BlockSpec {
 		return mkLog(d, addr, s)
 	}
 	switch kind {
+	case 'e':
+		return simeth.BlockSpec{}
 	case 'a':
 		return simeth.BlockSpec{Txs: []simeth.TxSpec{{Logs: []*simeth.Log{lg(seed+"/0", addrA)}, Traces: []*simeth.Trace{tr(seed + "/0")}}}}
 	case 'z': // one tx: four logs of another event, then one matching log (log index 4: no row key in common with kinds a and c)
@@ -140,6 +143,22 @@ func acWord(n int) string {
 	b := make([]byte, n)
 	for i := range b {
 		b[i] = "ac"[i%2]
+	}
+	return string(b)
+}
+
+// sparseWord is a word of length n of mostly empty blocks: blocks b with b mod 32 in {0,1} (so 1, 32, 33, ..., 256, 257,
+// ...) and the last block carry rows (kinds a and c alternating), every other block is empty.
+func sparseWord(n int) string {
+	b := make([]byte, n)
+	for i := range b {
+		num := i + 1
+		switch {
+		case num%32 <= 1 || num == n:
+			b[i] = "ac"[(num/32+num)%2]
+		default:
+			b[i] = 'e'
+		}
 	}
 	return string(b)
 }
